@@ -29,18 +29,25 @@ Definition script_of (l : list (Z * Z * Z * list action)) : script :=
   fun st mk idx => concat (map (fun e => let '(a, b, c, acts) := e in if (a =? st) && (b =? mk) && (c =? idx) then acts else []) l).
 
 Record scen := { sc_cfg : config; sc_nstrat : Z; sc_script : list (Z * Z * Z * list action); sc_markets : list market;
-                 sc_events : list event; sc_expect : list (list oobs); sc_abort : bool; sc_tx : Z * Z }.
+                 sc_events : list event; sc_expect : list (list oobs * Z); sc_abort : bool; sc_tx : Z * Z }.
 
-Definition model_run (tb : tiebreak) (sc : scen) : list (list oobs) * bool * (Z * Z) :=
+Definition model_run (tb : tiebreak) (sc : scen) : list (list oobs * Z) * bool * (Z * Z) :=
   let '(obs, sf) := run_obs tb (sc_cfg sc) (sc_nstrat sc) (script_of (sc_script sc)) (sim0 (sc_markets sc)) (sc_events sc) in
-  (map (map obs_of) obs, s_aborted sf, (s_tx sf, s_tx_failed sf)).
+  (map (fun x => (map obs_of (fst x), snd x)) obs, s_aborted sf, (s_tx sf, s_tx_failed sf)).
 
-Definition runs_eqb (a b : list (list oobs)) : bool := list_eqb (list_eqb oobs_eqb) a b.
+Definition ev_eqb (x y : list oobs * Z) : bool := list_eqb oobs_eqb (fst x) (fst y) && (snd x =? snd y).
+Definition runs_eqb (a b : list (list oobs * Z)) : bool := list_eqb ev_eqb a b.
 
-Fixpoint first_diff (a b : list (list oobs)) (i : Z) : Z :=
+(* first event at which the orders agree everywhere so far but the transaction total differs *)
+Fixpoint first_tx_diff (a b : list (list oobs * Z)) (i : Z) : Z :=
+  match a, b with
+  | x :: a', y :: b' => if list_eqb oobs_eqb (fst x) (fst y) then (if snd x =? snd y then first_tx_diff a' b' (i + 1) else i) else -1
+  | _, _ => -1
+  end.
+Fixpoint first_diff (a b : list (list oobs * Z)) (i : Z) : Z :=
   match a, b with
   | [], [] => -1
-  | x :: a', y :: b' => if list_eqb oobs_eqb x y then first_diff a' b' (i + 1) else i
+  | x :: a', y :: b' => if ev_eqb x y then first_diff a' b' (i + 1) else i
   | _, _ => i
   end.
 
@@ -51,5 +58,5 @@ Definition scen_cmp (sc : scen) : Z :=
   if runs_eqb u d then
     (if sc_abort sc then (if au then 0 else 2000000)
      else if au then 2000001
-     else if runs_eqb u (sc_expect sc) then (if fst txu + snd txu =? fst (sc_tx sc) then 0 else 3000000) else 1000 + first_diff u (sc_expect sc) 0)
+     else if runs_eqb u (sc_expect sc) then (if fst txu + snd txu =? fst (sc_tx sc) then 0 else 3000000) else (if 0 <=? first_tx_diff u (sc_expect sc) 0 then 4000000 + first_tx_diff u (sc_expect sc) 0 else 1000 + first_diff u (sc_expect sc) 0))
   else 1.
